@@ -10,6 +10,7 @@ import (
 	"testing/synctest"
 	"time"
 
+	"github.com/mdlayher/corerad/internal/system"
 	"github.com/mdlayher/ndp"
 	"verif.local/model"
 	"verif.local/vlib"
@@ -77,6 +78,15 @@ func TestVerifC16(t *testing.T) {
 		}
 		p := &Prefix{Prefix: mp("2001:db8::/64"), OnLink: true, Autonomous: true, ValidLifetime: valid, PreferredLifetime: pref, Deprecated: deprecated, Epoch: epoch, TimeNow: clock}
 		rt := &Route{Prefix: mp("2001:db8:1::/48"), Preference: ndp.High, Lifetime: route, Deprecated: deprecated, Epoch: epoch, TimeNow: clock}
+		if i%4 == 1 {
+			// the same stanzas as wildcards (::/64, ::/0) that expand to one network
+			// and one route: a deprecated wildcard counts down like a static one
+			p.Auto, p.Prefix = true, mp("::/64")
+			p.Addrs = func() ([]system.IP, error) { return []system.IP{{Address: mp("2001:db8::1/64")}}, nil }
+			rt.Auto, rt.Prefix = true, mp("::/0")
+			rt.Routes = func() ([]system.Route, error) { return []system.Route{{Prefix: mp("2001:db8:1::/48"), Index: 1}}, nil }
+			r.Count("wildcard_tuples", 1)
+		}
 		var lastV, lastP, lastR time.Duration = -1, -1, -1
 		sawZero, sawPos := false, false
 		for _, off := range offs {
